@@ -29,11 +29,66 @@ def cases(tier, seed, args):
         out.append(dict(t='interleave', lists=[[int(x) for x in rng.integers(0, 9, size=rng.integers(0, 5))] for _ in range(int(rng.integers(1, 4)))]))
         out.append(dict(t='bcast', shapes=[[int(x) for x in rng.choice([1, 2, 3], size=rng.integers(0, 4))] for _ in range(int(rng.integers(1, 4)))]))
         out.append(dict(t='randmap', K=int(rng.integers(1, 7)), F=int(rng.integers(1, 12)), seed=int(rng.integers(1 << 30))))
+    for i in range(36 if q else 240):
+        nd = int(rng.integers(1, 4))
+        out.append(dict(t='unitnorm', shape=[int(rng.integers(1, 4)) for _ in range(nd)], axis=int(rng.integers(-nd, nd)),
+                        style=['plus', 'max', 'where'][i % 3], eps=[[1, 16], [4, 1], [1, 64], [3, 2]][(i // 3) % 4],
+                        zero=bool(i % 5 == 0), seed=int(rng.integers(1 << 30)), dtype=['float64', 'float32', 'int64'][(i // 12) % 3]))
+    for i in range(12 if q else 60):
+        out.append(dict(t='hermitian', D=int(rng.integers(1, 5)), lead=int(i % 2), seed=int(rng.integers(1 << 30))))
+        out.append(dict(t='abs_square', n=int(rng.integers(1, 9)), cplx=bool(i % 2), dtype=['complex128', 'complex64', 'float64', 'int64'][i % 4],
+                        seed=int(rng.integers(1 << 30))))
+    for size, fs in ((8, 16000), (1024, 16000), (512, 8000), (6, 44100), (2, 7)):
+        out.append(dict(t='center_freq', size=size, fs=fs))
     return out
 
 
 def run_case(case):
     t = case['t']
+    if t == 'unitnorm':
+        from pb_bss.distribution.utils import _unit_norm
+        from harness import enc
+        rng = np.random.default_rng(case['seed'])
+        x = rng.integers(-4, 5, size=case['shape'])
+        if case['zero']:
+            x[tuple(0 for _ in case['shape'])] = 0
+            x = x * (rng.random(case['shape']) < 0.5)
+        eps = case['eps'][0] / case['eps'][1]
+        xin = x.astype(case['dtype'])
+        out, exc = call(_unit_norm, xin, axis=case['axis'], eps=eps, eps_style=case['style'], ord=1)
+        return [dict(kind='unitnorm', x=flati(x), axis=case['axis'], style=case['style'], eps=case['eps'], exc=exc,
+                     out=dict(shape=[] if out is None else [int(v) for v in np.shape(out)],
+                              data=[] if out is None else [enc.rat(v, max_den=1 << 12, rel=1e-6 if case['dtype'] == 'float32' else 1e-9)
+                                                           for v in np.asarray(out, dtype=float).ravel()]),
+                     fp=f'fn=_unit_norm;style={case["style"]};dtype={case["dtype"]}')]
+    if t == 'hermitian':
+        from pb_bss.distribution.utils import force_hermitian
+        from harness import enc
+        rng = np.random.default_rng(case['seed'])
+        D = case['D']
+        m = rng.integers(-5, 6, size=(D, D)) + 1j * rng.integers(-5, 6, size=(D, D))
+        arg = np.stack([m, 2 * m]) if case['lead'] else m
+        before = arg.copy()
+        out, exc = call(force_hermitian, arg)
+        if not np.array_equal(before, arg):
+            exc = 'InputMutated'
+        o = None if out is None else (out[0] if case['lead'] else out)
+        return [dict(kind='hermitian', m=enc.acint(m), out=[] if o is None else enc.acrat(o), exc=exc, fp='fn=force_hermitian')]
+    if t == 'abs_square':
+        from harness import enc
+        rng = np.random.default_rng(case['seed'])
+        n = case['n']
+        x = rng.integers(-6, 7, size=n) + (1j * rng.integers(-6, 7, size=n) if case['dtype'].startswith('complex') else 0)
+        out, exc = call(pu.abs_square, x.astype(case['dtype']))
+        ok = out is not None and np.all(np.asarray(out) == np.rint(np.asarray(out).real))
+        return [dict(kind='abs_square', x=enc.acint(np.asarray(x, dtype=complex)), exc=exc if (out is None or ok) else 'NonIntegral',
+                     out=[] if out is None else [int(v) for v in np.asarray(out).real], real_out=bool(out is not None and not np.iscomplexobj(out)),
+                     fp=f'fn=abs_square;dtype={case["dtype"]}')]
+    if t == 'center_freq':
+        from harness import enc
+        out, exc = call(pu.get_stft_center_frequencies, case['size'], case['fs'])
+        return [dict(kind='center_freq', size=case['size'], fs=case['fs'], exc=exc,
+                     out=[] if out is None else [enc.rat(v, max_den=1 << 12) for v in out], fp='fn=get_stft_center_frequencies')]
     if t == 'reshape':
         shape = [1 if x == '1' else case['sizes'][case['names'].index(x)] for x in case['src']]
         n = int(np.prod(shape)) if shape else 1
